@@ -9,4 +9,12 @@ for op in ("OP_WRITE", "OP_READ", "OP_SEEK", "OP_TRUNC"):
                            checks="mem", include_env=("log_stub", "memfile", "memset_model"), timeout=600,
                            functions=["sf_seek", "sf_readf_short", "sf_writef_short", "sf_command(SFC_FILE_TRUNCATE)", "psf_default_seek", "pcm_init", "pcm_read_les2s", "pcm_write_s2les"],
                            bounds="16-bit LE PCM, %d channel(s), file of <= 4 frames with symbolic content, arbitrary RDWR state (both positions, last_op), one operation with symbolic arguments (<= 2 frames)" % ch))
+# every typed read/write wrapper re-seeks the codec when the last operation was of the other kind (or none yet, on a fresh RDWR
+# handle): the position bookkeeping obligations of the L4 wrapper harnesses (any I_open state incl. last_op == SFM_RDWR)
+import importlib.util, os
+def _load(n):
+    spec = importlib.util.spec_from_file_location("reg_%s_x8" % n, os.path.join(os.path.dirname(os.path.abspath(__file__)), n + ".py"))
+    m = importlib.util.module_from_spec(spec); spec.loader.exec_module(m); return m
+HARNESSES += [h for h in _load("C05").HARNESSES if h.name.startswith("wrap.") and ".ch2" in h.name and "probe" not in h.name and "_raw" not in h.name]
+HARNESSES += [h for h in _load("C06").seek_harnesses()]
 META = {"assumptions": ["E-memfile", "the state invariant inv() in harness/L4/rdwr_step.c"], "outside": ["histories are covered by induction over the single step; containers' close/re-open in RDWR: see DESIGN"]}
